@@ -24,6 +24,8 @@ def run(ctx):
     progs = F.c13_chains(ctx.tier, rnd, excs=("ZeroDivisionError",) if quick else ("ZeroDivisionError", "KeyError", "KeyboardInterrupt"))
     agg = run_family("C13chain", progs, NAMES, dev=dev, invariants=INVS, perms=(0, 1) if quick else (0, 1, 2), timeout=1800)
     ctx.add_family(agg)
+    agg = run_family("C13metal", F.c13_metal(ctx.tier, rnd), NAMES + ["macroname"], dev=dev, invariants=INVS, perms=(0, 1), timeout=1800)
+    ctx.add_family(agg)
     n3 = 100 if quick else 2000
     f3 = [F.random_program(rnd, ctx.tier, depth=3, max_items=10, onerror=True, raising=True) for _ in range(n3)]
     agg = run_family("C13rand", f3, NAMES, dev=dev, invariants=INVS, perms=(0,),
